@@ -179,8 +179,7 @@ Definition reach_h (cf : config) (cls : list Z) (h : hist) (now c g t p ts : Z) 
 Definition ceff_h (cf : config) (cls : list Z) (h : hist) (A : Z -> Z -> list (commit * Z)) (now c g t p off order ts : Z)
   : option bool :=
   match reach_h cf cls h now c g t p ts with
-  | Some boff => Some (snd (ring_step (cf_min_distance cf) (ring_run (cf_min_distance cf) (cf_intervals cf) (A t p))
-                                      (mkCommit off order ts) (commit_lag boff off)))
+  | Some boff => Some (commit_stored (ring_run (cf_min_distance cf) (cf_intervals cf) (A t p)) order)
   | None => None
   end.
 
